@@ -411,8 +411,8 @@ func scenarioRecoveryWindow(bound int) *vh.SchedScenario {
 		files := []*sFile{{Key: "a1", Name: "a", Data: "AAAABBBB", Cuts: []int64{0, 4, 8}}}
 		sw := newSchedWorld(files)
 		sw.recv("a1", 0, false) // something for Recover to look at
-		started, done, raced := false, false, ""
-		x.Go("recover", func() { started = true; sw.w.st.Recover(); done = true })
+		done, raced := false, ""
+		x.Go("recover", func() { sw.w.st.Recover(); done = true })
 		x.Go("request", func() {
 			if !sw.w.st.Ready() {
 				return // answered 503
